@@ -18,18 +18,46 @@ def pc_text(pc):
     return ' && '.join(sorted(raw(c) for c in pc)) or 'always'
 
 
+def cases(value, pc=()):
+    """guarded-case normal form of a function value: split conditionals at the top of the term"""
+    v = T.unroot(value)
+    if isinstance(v, tuple) and v and v[0] == 'ite':
+        return cases(v[2], pc + (v[1],)) + cases(v[3], pc + (T.tnot(v[1]),))
+    return [(pc, value)]
+
+
 def summarise(crate, body, args=None):
     ev = Evaluator(crate)
     top = ev.eval_entry(body, args)
-    lines = ['RET ' + raw(top)]
+    lines = []
+    all_cases = [(tuple(ev.fallthrough_pc) + pc, v) for pc, v in cases(T.canon(top))]
+    # early exits that are not part of the value term (`?` on an Option) are cases of the function's value too
+    for e in ev.events:
+        if e['kind'] == 'ret' and e['depth'] == 0 and not e['loops'] and not e.get('joined'):
+            all_cases.append((tuple(e['pc']), T.canon(e['value'])))
+            e['as_case'] = True
+    for pc, v in all_cases:
+        cond = T.canon(T.tand(*pc)) if pc else T.TRUE
+        if cond == T.FALSE:
+            continue
+        lines.append(('RET ' + raw(v)) if cond == T.TRUE else f'CASE {raw(cond)} => {raw(v)}')
+    lines[:] = sorted(set(lines))
     loops = {}
+    reduced = set()
+    for e in ev.events:
+        if e['kind'] == 'loop' and e.get('reduced'):
+            reduced.add(e['node'].get('_nid'))
     for e in ev.events:
         if e['depth'] != 0:
+            continue
+        if any(l in reduced for l in e['loops']):
             continue
         k = e['kind']
         ind = '  ' * len(e['loops'])
         if k == 'loop':
             nid = e['node'].get('_nid')
+            if nid in reduced:
+                continue    # an accumulator loop: its value is part of the terms above
             loops[nid] = e
             head = f"{ind}LOOP[{e.get('src')}]"
             if e.get('iter') is not None:
@@ -39,6 +67,8 @@ def summarise(crate, body, args=None):
             tgt = e.get('name', '?') + ''.join('.' + f for f in e.get('fields', ()) if f != '[]')
             lines.append(f"{ind}SET {tgt} := {raw(e['value'])} WHEN {pc_text(e['pc'])}")
         elif k == 'ret':
+            if (e.get('joined') or e.get('as_case')) and not e['loops']:
+                continue    # already one of the CASE lines
             lines.append(f"{ind}RETURN {raw(e['value'])} WHEN {pc_text(e['pc'])}")
         elif k == 'break':
             lines.append(f"{ind}BREAK WHEN {pc_text(e['pc'])}")
@@ -67,9 +97,19 @@ def summarise(crate, body, args=None):
         b = body.binders.get(int(m.group(1)))
         return (b['bind']['name'] if b else 'var') + '°'
     text = re.sub(r'havoc\((\d+), \d+\)', name_of, text)
-
-    def name_of2(m):
-        b = body.binders.get(int(m.group(1)))
-        return (b['bind']['name'] if b else 'var') + '°'
-    text = re.sub(r'elemhavoc\((?:[^()]|\([^()]*\))*, (\d+), \d+\)', name_of2, text)
+    text = re.sub(r'elemhavoc\((?:[^()]|\([^()]*\))*, (\d+), \d+\)', name_of, text)
+    # names of locals are arbitrary: number them by first appearance (parameters are p0, p1, ..; `self` stays)
+    names = []
+    for b in body.binders.values():
+        if b['kind'] in ('let', 'iflet', 'arm', 'cparam'):
+            nm = b['bind']['name']
+            if nm not in names and nm != 'self':
+                names.append(nm)
+    order = []
+    for m in re.finditer(r'\b([A-Za-z_][A-Za-z0-9_]*)(?=°|\[|\.| :=| = )', text):
+        nm = m.group(1)
+        if nm in names and nm not in order:
+            order.append(nm)
+    for i, nm in enumerate(order):
+        text = re.sub(r'(?<![A-Za-z0-9_.:$])' + re.escape(nm) + r'(?=°|\[|\.(?!\.)| :=| = )', f'local{i + 1}', text)
     return canon_text(text), ev
